@@ -133,6 +133,11 @@ def run_item(item, held=None):
                 b.feed(item["text"])
                 r = b.close()
                 return ["badbody", X.from_etree(r) if r is not None else None], bad
+            if kind == "badfile":
+                # a complete file whose body is not in the character set its header declares
+                t = OFXTree()
+                r = t.parse(io.BytesIO(BAD_FILES[item["which"] % len(BAD_FILES)]))
+                return ["badfile", X.from_etree(r) if r is not None else None], bad
         except Exception as e:
             if not isinstance(e, (ValueError, TypeError, AttributeError, KeyError, ArithmeticError)) and type(e).__name__ not in ("ParseError", "OFXHeaderError") and len(ERRLOG) < 20:
                 import traceback
@@ -211,6 +216,16 @@ def check_case(case):
             out.append((f"result-depends-on-history/{probe['kind']}", f"{probe.get('inst', {}).get('cls', probe.get('type'))} {which}: {H.canon(r0)[:200]} != {H.canon(r1 if r0 != r1 else r2)[:200]}"))
         if inst is not None and held_state(inst) != h0:
             out.append(("held-instance-changed-by-later-work", f"{probe['inst']['cls']}"))
+    elif case["kind"] == "repeat":
+        rs = []
+        for _ in range(3):
+            try:
+                rs.append(run_item(case["item"])[0])
+            except H.HarnessError:
+                return []
+        if not (rs[0] == rs[1] == rs[2]):
+            ob = case["item"].get("ob", {})
+            out.append((f"result-changes-on-repetition/{case['item']['kind']}", f"{ob.get('cls')} {ob.get('kind')} {ob.get('which', ob.get('attr', ''))}: {[H.canon(r)[:60] for r in rs]}"))
     elif case["kind"] == "threads" and case.get("fresh"):
         # the threads are the FIRST users of the classes in a brand-new interpreter (first-use initialisation races),
         # the sequential baseline is computed afterwards in that same interpreter
@@ -280,6 +295,17 @@ TYPE_TEXTS = [
     ("DateTime", "20200101"), ("DateTime", "20200101120000.123[-5:EST]"), ("DateTime", "19991231235959.999[+5.30:IST]"), ("DateTime", "20200230"),
     ("Time", "235959.500[-8:PST]"), ("Time", "250000"), ("Decimal", "1,50"), ("Decimal", "abc"), ("Integer", "42"), ("Bool", "Y"), ("Bool", "x"), ("String", "a&amp;b"),
 ]
+def _v1(charset, encoding="USASCII"):
+    return ("OFXHEADER:100\r\nDATA:OFXSGML\r\nVERSION:102\r\nSECURITY:NONE\r\nENCODING:%s\r\nCHARSET:%s\r\nCOMPRESSION:NONE\r\nOLDFILEUID:NONE\r\nNEWFILEUID:NONE\r\n\r\n" % (encoding, charset)).encode("ascii")
+
+
+BAD_FILES = [
+    _v1("NONE") + b"<OFX><A>caf\xe9 \x93quoted\x94</A></OFX>",  # cp1252 bytes under CHARSET:NONE
+    _v1("NONE", "UTF-8") + b"<OFX><A>\xff\xfe</A></OFX>",
+    _v1("1252") + b"<OFX><A>\x81\x8d</A></OFX>",  # undefined in cp1252
+    _v1("ISO-8859-1") + "<OFX><A>\u6f22</A></OFX>".encode("utf_8"),  # decodes, as something else
+    b'<?xml version="1.0" encoding="UTF-8" standalone="no"?>\r\n<?OFX OFXHEADER="200" VERSION="203" SECURITY="NONE" OLDFILEUID="NONE" NEWFILEUID="NONE"?>\r\n<OFX><A>caf\xe9</A></OFX>',
+]
 BAD_BODIES = ["<A><B>x</B>", "<A><B><C>x</C></A>", "<A></B>", "<A><B>x</B></A>junk", "<A><B>x</B></A>"]
 
 
@@ -307,6 +333,8 @@ def item_st(cls_names):
         if k == 8:
             if draw(st.booleans()):
                 return {"kind": "introspect", "cls": name}
+            if draw(st.booleans()):
+                return {"kind": "badfile", "which": draw(st.integers(0, len(BAD_FILES) - 1))}
             return {"kind": "badbody", "text": draw(st.sampled_from(BAD_BODIES))}
         return {"kind": "dirtytree", "inst": draw(M.instance_st(U[name], max_members=2, markup=False)), "ins": draw(st.lists(st.tuples(st.integers(0, 40), st.integers(0, 12), st.integers(0, 4), st.integers(0, 30)).map(list), min_size=1, max_size=3))}
 
@@ -471,8 +499,27 @@ def _thread_worker(job):
     return s
 
 
+def _repeat_worker(names):
+    """Every way of failing (C04's obligations: required child omitted, group violated, custom rule broken, ...) and the
+    undamaged minimal instance, three times in a row: the outcome of a conversion does not depend on how often it was asked."""
+    H.setup_path()
+    from pbt.checks import c04
+
+    s = H.Stats()
+    U = M.universe()
+    for name in names:
+        for ob in c04.obligations(U[name]):
+            item = {"kind": "fail", "ob": ob}
+            case = {"kind": "repeat", "item": item}
+            s.case(case, nontrivial=True, labels=["repetition of a failing conversion: " + ob["kind"]])
+            for k, d in check_case(case):
+                s.fail(k, case, d)
+    return s
+
+
 def run(ctx):
     names = sorted(M.universe())
+    ctx.pmap(_repeat_worker, [names[i::16] for i in range(16)])
     nh = ctx.scale(60, 600)
     ctx.pmap(_hist_worker, [(names[i::16], nh, ctx.sub_seed("h", i)) for i in range(16)])
     nt = ctx.scale(8, 80)
